@@ -18,15 +18,20 @@ size_t nondet_size(void);
 unsigned g_vinit, g_vclear, g_rbinit, g_rbclear, g_bufinit, g_bufclear, g_vpush, g_rbput;
 void ldb_vector_init(ldb_vector_t *z) { z->items = NULL; z->length = 0; z->alloc = 0; g_vinit++; }
 void ldb_vector_clear(ldb_vector_t *z) { g_vclear++; }
-void ldb_vector_push(ldb_vector_t *z, const void *x) { g_vpush++; }
+const void *g_last_vpush; ldb_vector_t *g_last_vpush_vec;
+void ldb_vector_push(ldb_vector_t *z, const void *x) { g_vpush++; g_last_vpush = x; g_last_vpush_vec = z; z->length++; }
 void ldb_rb_tree_init(rb_tree_t *tree, rb_cmp_f *compare, void *arg) { g_rbinit++; }
 void ldb_rb_tree_clear(rb_tree_t *tree, rb_clear_f *clear) { g_rbclear++; }
-int ldb_rb_set_put(rb_tree_t *tree, const void *item) { g_rbput++; return 1; }
+const void *g_last_rbput; rb_tree_t *g_last_rbput_tree;
+int ldb_rb_set_put(rb_tree_t *tree, const void *item) { g_rbput++; g_last_rbput = item; g_last_rbput_tree = tree; return 1; }
 void *ldb_rb_set_del(rb_tree_t *tree, const void *item) { return NULL; }
 void ldb_buffer_init(ldb_buffer_t *z) { z->data = NULL; z->size = 0; z->alloc = 0; g_bufinit++; }
 void ldb_buffer_clear(ldb_buffer_t *z) { g_bufclear++; }
 void *ldb_malloc(size_t n) { void *p = malloc(n); __CPROVER_assume(p != NULL); return p; }
 void ldb_free(void *p) { free(p); }
+/* internal-key copy: the destination aliases the source bytes (content copy itself: buf.* / fmt.*) */
+void ldb_ikey_init(ldb_buffer_t *z) { z->data = NULL; z->size = 0; z->alloc = 0; }
+void ldb_ikey_copy(ldb_buffer_t *z, const ldb_buffer_t *x) { z->data = x->data; z->size = x->size; z->alloc = 0; }
 /* empty deleted-files set: the iteration over it ends at once */
 void ldb_rb_iter_init(rb_iter_t *iter, const rb_tree_t *tree) { }
 void ldb_rb_iter_start(rb_iter_t *iter, const rb_tree_t *tree) { }
@@ -140,5 +145,45 @@ void h_export(void) {
   if (e.has_last_sequence) { CHECK(g_evk[i] == EV_V32 && g_evv[i] == 4 && g_evk[i + 1] == EV_V64 && g_evv[i + 1] == e.last_sequence, "export: tag 4 + varint64 last sequence"); i += 2; }
   CHECK(g_nev == i, "export: nothing else is emitted for an edit without file lists; absent fields are not emitted");
   for (i = 0; i < g_nev; i++) CHECK(g_evp[i] == &dst || g_evk[i] == EV_LPS, "export: everything goes to the destination buffer");
+  CANARY();
+}
+
+/* ---- list records: ONE record of tag 6 (deleted file), 7 (new file) or 5 (compact pointer), single-byte varints except
+ * the file number (2 bytes); the decoded fields must reach the edit's lists exactly ---- */
+void h_list1(void) {
+  ldb_edit_t e; ldb_slice_t src;
+  uint8_t b[24];
+  int kind = nondet_int(), r;
+  size_t n = 0, k1 = nondet_size(), k2 = nondet_size();
+  uint8_t level = b[1];
+  fresh_edit(&e);
+  __CPROVER_assume(level < 7 && k1 >= 8 && k1 <= 9 && k2 >= 8 && k2 <= 9);
+  __CPROVER_assume((b[2] & 128) && !(b[3] & 128));          /* 2-byte varint64 number at b[2..3] (tags 6, 7) */
+  g_vpush = g_rbput = 0; g_last_vpush = g_last_rbput = NULL;
+  if (kind == 0) {            /* 06 level number */
+    b[0] = 6; n = 4;
+    src.data = b; src.size = n; src.alloc = 0;
+    r = ldb_edit_import(&e, &src);
+    CHECK(r == 1 && g_rbput == 1 && g_vpush == 0 && g_last_rbput_tree == &e.deleted_files, "deleted-file record: one entry goes into deleted_files");
+    CHECK(((const file_entry_t *)g_last_rbput)->level == level && ((const file_entry_t *)g_last_rbput)->number == V64_VAL(b + 2, 2), "deleted-file record: (level, file number) exactly as encoded");
+  } else if (kind == 1) {     /* 07 level number size klen key klen key */
+    size_t p = 4;
+    b[0] = 7; __CPROVER_assume(b[p] < 128); p++;              /* file size, 1 byte */
+    b[p] = (uint8_t)k1; p++; p += k1; __CPROVER_assume(p + 1 + k2 <= 24);
+    b[p] = (uint8_t)k2; p++; p += k2; n = p;
+    src.data = b; src.size = n; src.alloc = 0;
+    r = ldb_edit_import(&e, &src);
+    CHECK(r == 1 && g_vpush == 1 && g_rbput == 0 && g_last_vpush_vec == &e.new_files, "new-file record: one entry goes into new_files");
+    { const meta_entry_t *m = g_last_vpush;
+      CHECK(m->level == level && m->meta.number == V64_VAL(b + 2, 2) && m->meta.file_size == b[4], "new-file record: level, number, size exactly as encoded");
+      CHECK(m->meta.smallest.data == b + 6 && m->meta.smallest.size == k1 && m->meta.largest.data == b + 6 + k1 + 1 && m->meta.largest.size == k2, "new-file record: smallest then largest key, each length-prefixed"); }
+  } else {                    /* 05 level klen key */
+    b[0] = 5; b[2] = (uint8_t)k1; n = 3 + k1;
+    src.data = b; src.size = n; src.alloc = 0;
+    r = ldb_edit_import(&e, &src);
+    CHECK(r == 1 && g_vpush == 1 && g_rbput == 0 && g_last_vpush_vec == &e.compact_pointers, "compact-pointer record: one entry goes into compact_pointers");
+    { const ikey_entry_t *c = g_last_vpush;
+      CHECK(c->level == level && c->key.data == b + 3 && c->key.size == k1, "compact-pointer record: (level, key) exactly as encoded"); }
+  }
   CANARY();
 }
